@@ -886,19 +886,36 @@ pub fn run_state_case(spec: &Spec, out: &mut dyn Write) -> GeomOut {
         match st.roundtrip() {
             Err(e) => add(&mut f, "C11", format!("the state cannot be written and read back: {}", e)),
             Ok((text, sc2, pos2, again)) => {
+                // does every number of the document survive print + parse on its own?  (serde_json 1.0.57 does not
+                // parse every shortest decimal back to the same double: known finding D16)
+                let mut nums: Vec<f64> = vec![];
+                fn collect(v: &Value, out: &mut Vec<f64>) {
+                    match v {
+                        Value::Number(n) => { if let Some(x) = n.as_f64() { out.push(x) } }
+                        Value::Array(a) => a.iter().for_each(|x| collect(x, out)),
+                        Value::Object(m) => m.values().for_each(|x| collect(x, out)),
+                        _ => {}
+                    }
+                }
+                collect(&js, &mut nums);
+                let text_layer_inexact = nums.iter().any(|x| {
+                    let t = serde_json::to_string(x).unwrap_or_default();
+                    serde_json::from_str::<f64>(&t).map(|y| y.to_bits() != x.to_bits()).unwrap_or(true)
+                });
+                let class = if text_layer_inexact { " [class=serde-json-float-parse]" } else { "" };
                 let same_score = match (score, sc2) {
                     (Some(a), Some(b)) => a.to_bits() == b.to_bits() || (a.is_nan() && b.is_nan()),
                     (None, None) => true,
                     _ => false,
                 };
                 if !same_score {
-                    add(&mut f, "C11", format!("score {:?} before writing, {:?} after reading the JSON back", score, sc2));
+                    add(&mut f, "C11", format!("score {:?} before writing, {:?} after reading the JSON back{}", score, sc2, class));
                 }
                 if pos2.len() != cart.len() || pos2.iter().zip(cart.iter()).any(|(a, b)| a.iter().zip(b.iter()).any(|(x, y)| x.to_bits() != y.to_bits() && !(x.is_nan() && y.is_nan()))) {
-                    add(&mut f, "C11", "the placements change when the state is written to JSON and read back".into());
+                    add(&mut f, "C11", format!("the placements change when the state is written to JSON and read back{}", class));
                 }
                 if again != text {
-                    add(&mut f, "C11", "re-serialising the state read back from JSON gives a different text".into());
+                    add(&mut f, "C11", format!("re-serialising the state read back from JSON gives a different text{}", class));
                 }
             }
         }
